@@ -37,11 +37,13 @@ META = {
         "from the pool / allowed infinite registers / zero (C19_reserved_respected), in/out pairs share a register, and a "
         "register-machine run of the allocated code reads, at every operation, the same operand values as the SSA program "
         "for arbitrary uninterpreted operation functions (C19_semantics). Failure (OutOfRegisters, clashing in/out "
-        "registers) is an explicit result. PARTIAL: the theorems need input_ok -- no pre-assigned infinite register and "
-        "every pre-assigned pool register visible to allocate_func's exclusion; both clauses are necessary "
-        "(C19_infinite_preassigned_refuted, C19_unexcluded_preassigned_refuted: known findings C19-kf-1/2, reproduced on "
-        "the real passes) -- and forced_ok (the input's own ties/pre-assignments are satisfiable); without forced_ok, "
-        "C19_interference_confined shows any sharing is confined to registers the input itself pre-assigned. "
+        "registers) is an explicit result. The model is that of /repo after the repairs d11e3b9 / 26a8b63 (two findings "
+        "of this check: a pre-assigned infinite register was re-issued; pre-assigned registers on operations without "
+        "register effects were not excluded); the old code is kept as allocate_func_old with the two recorded refutations "
+        "(C19_*_old_refuted), their witnesses are replayed as fixed findings. Hypotheses left: input_ok (zero neither "
+        "allocatable nor pre-assigned, pool of real registers) and forced_ok (the input's own ties/pre-assignments are "
+        "satisfiable); without forced_ok, C19_interference_confined shows any sharing is confined to registers the input "
+        "itself pre-assigned. "
         "riscv_scf.for allocation (live-ins, loop-carried groups, reserved registers, one nesting level) is modelled and "
         "tied by correspondence and the oracle but has no theorem. Tie: the model is run next to the real "
         "riscv/x86 allocate_func on generated functions and the complete value->register map and final RegisterStack are "
@@ -870,32 +872,10 @@ def coq_expr(case):
 # known-finding classes (specific predicates on the case), non-triviality, run
 
 
-def _effect_regs(case):
-    """registers mentioned (as allocated operand/result types) by operations that carry the
-    RegisterAllocatedMemoryEffect trait -- what allocate_func removes from the pool"""
-    fl = _Flat(case)
-    regs = set()
-    for o, resids, _ in _all_ops(fl.ops):
-        if o["k"] == "for" or o["k"] in NO_EFFECT_KINDS:
-            continue
-        for v in operands_of(o) + resids:
-            if fl.pre[v] is not None:
-                regs.add(fl.pre[v])
-    for v in case["ret"]:
-        if fl.pre[v] is not None:
-            regs.add(fl.pre[v])
-    return regs
-
-
 def known(case, res):
-    fl = _Flat(case)
-    pre = [t for t in fl.pre if t is not None]
-    if any(t < 0 for t in pre):
-        return "C19-kf-1"            # the input pre-assigns an infinite (negative-index) register
-    pool = set(default_pool(case["arch"]) if case["pool"] is None else case["pool"])
-    eff = _effect_regs(case)
-    if any(t in pool and t not in eff for t in pre):
-        return "C19-kf-2"            # a pre-assigned allocatable register that allocate_func does not exclude
+    """No open known finding: C19-kf-1 (pre-assigned infinite register re-issued) and C19-kf-2 (pre-assigned
+    register not excluded) were repaired in /repo by d11e3b9 / 26a8b63 and are `fixed` entries of
+    known_findings.d/C19.json -- their witnesses are replayed and any re-occurrence is a violation."""
     return None
 
 
@@ -930,11 +910,11 @@ def run(ctx: Ctx):
     replay_findings(ctx, "functions", impl, holds)
     k = 10 if thorough else 1
     fams = [
-        ("riscv-straight-line", [gen_straight(rng, "riscv", allow_neg_pre=(rng.random() < 0.05), wide=rng.random() < 0.5)
+        ("riscv-straight-line", [gen_straight(rng, "riscv", allow_neg_pre=(rng.random() < 0.2), wide=rng.random() < 0.5)
                                  for _ in range(130 * k)]),
         ("riscv-straight-line-many-live", [gen_straight(rng, "riscv", nops=rng.randint(10, 22), p_pre=0.05, p_pool=0.7,
                                                         wide=True) for _ in range(60 * k)]),
-        ("x86-straight-line", [gen_straight(rng, "x86", allow_neg_pre=(rng.random() < 0.05), wide=rng.random() < 0.5)
+        ("x86-straight-line", [gen_straight(rng, "x86", allow_neg_pre=(rng.random() < 0.2), wide=rng.random() < 0.5)
                                for _ in range(130 * k)]),
         ("riscv-scf-for", [gen_loop(rng, wide=rng.random() < 0.5) for _ in range(130 * k)]),
     ]
